@@ -283,6 +283,29 @@ class Def:
     def path(self):
         return (self.module + '::' + self.name) if self.module else self.name
 
+    def defterm(self):
+        """the un-instantiated definition, as a term of the line protocol (Lean: `Def`)"""
+        def te_term(te):
+            k = te[0]
+            if k == 'param': return 'P%d' % te[1]
+            if k == 'ty': return 'T(%s)' % te[1].term()
+            if k in ('vec', 'bs', 'opt', 'bnd', 'ph'): return '%s(%s)' % (k, te_term(te[1]))
+            if k == 'arr': return 'arr(%d,%s)' % (te[2], te_term(te[1]))
+            if k == 'const_arr': return 'carr(%d,%s)' % (te[2], te_term(te[1]))
+            raise ValueError(k)
+        kind = 'E' if self.is_enum else 'S'
+        c = {'zero': 'Z', 'deep': 'D', 'none': 'N'}[self.copy]
+        reprs = ''.join(hexs(r) + ';' for r in self.reprs)
+        consts = ''.join('%s:%s;' % (hexs(cp['name']), cp['prim']) for cp in self.cparams)
+        vs = ''
+        for vname, style, fields in self.variants:
+            fs = ''.join('%s:%s;' % (hexs(fn if style == 'named' else str(i)), te_term(te)) for i, (fn, te) in enumerate(fields))
+            vs += hexs(vname) + '{' + fs + '};'
+        return 'def(%s,%s,%s,%d,[%s],%d,[%s],[%s])' % (hexs(self.name), kind, c, self.align_attr, reprs, len(self.tparams), consts, vs)
+
+    def literal_params(self):
+        return sorted(set(te[1] for _, _, fields in self.variants for _, te in fields if te[0] == 'param'))
+
     def generics_decl(self, with_defaults=True):
         parts = []
         for p in self.tparams:
@@ -476,6 +499,8 @@ class Adt(Ty):
 class Universe:
     def __init__(self, seed, n_types=40, max_depth=3, n_defs=12, prefix=''):
         self.prefix = prefix
+        # the corpus universe (prefix K) is frozen: its definitions are those of the golden corpus
+        self.relaxed = prefix != 'K'
         self.rng = random.Random(seed)
         self.defs = []
         self.types = []     # instantiated top-level types to register
@@ -581,7 +606,7 @@ class Universe:
                 c = r.random()
                 # (derive limitation, see DESIGN: an enum with a bounded parameter that is the literal type of a
                 # field does not compile; the parameter is then only used inside arrays)
-                if tparams and c < 0.3 and not is_enum: return ('param', 0)
+                if tparams and c < 0.3 and (not is_enum or self.relaxed): return ('param', 0)
                 if tparams and c < 0.4: return ('arr', ('param', 0), r.choice([1, 2, 3]))
                 if cparams and cparams[0]['name'] == 'N' and c < 0.55: return ('const_arr', ('ty', self.rand_prim(allow_unit=False)), 0)
                 if c < 0.6: return ('ph', ('ty', self.rand_prim()))
@@ -595,6 +620,7 @@ class Universe:
                 bounds = []
                 if role == 'nested' and r.random() < 0.5: bounds = [r.choice(['ZeroCopy', 'DeepCopy'])]
                 elif r.random() < 0.2: bounds = ['Sized']
+                elif self.relaxed and role == 'eps' and r.random() < 0.35: bounds = r.choice([['epsh::Mark'], ['epsh::Mark', 'Sized'], ['Clone']])
                 tparams.append({'name': 'ABCD'[i], 'bounds': bounds, 'default': None, 'role': role})
             # defaults only on a suffix of the parameters
             if tparams and r.random() < 0.3:
@@ -673,9 +699,10 @@ class Universe:
         for p in d.tparams:
             role = p['role']
             if role == 'zc':
-                # (derive limitation, see DESIGN: the bounds of a parameter that is the literal type of a field are
-                # also imposed on its ε-copy type, so only types that are their own ε-copy type fit)
-                targs.append(self.rand_prim(allow_unit=False))
+                if self.relaxed and r.random() < 0.4:
+                    targs.append(r.choice([Array(self.rand_prim(allow_unit=False), 2), Tuple(self.rand_prim(allow_unit=False), 2)]))
+                else:
+                    targs.append(self.rand_prim(allow_unit=False))
             elif 'ZeroCopy' in p['bounds']:
                 targs.append(self.rand_prim(allow_unit=False) if r.random() < 0.7 else Array(self.rand_prim(allow_unit=False), 2))
             elif 'DeepCopy' in p['bounds']:
@@ -751,6 +778,14 @@ class Universe:
         for t in self.types:
             f = 'entry_z' if t.is_zc() else 'entry'
             out.append('        %s::<%s>("%s"),' % (f, t.rust(), t.rust()))
+        out.append('    ]')
+        out.append('}')
+        out.append('/// (actual, predicted) type names of the ε-copy type of every registered type')
+        out.append('pub fn dtype_names() -> Vec<(String, String, String)> {')
+        out.append('    vec![')
+        for t in self.types:
+            out.append('        (core::any::type_name::<DeserType<\'static, %s>>().to_string(), core::any::type_name::<%s>().to_string(), core::any::type_name::<%s>().to_string()),'
+                       % (t.rust(), t.deser_rust(), t.rust()))
         out.append('    ]')
         out.append('}')
         out.append('pub fn slice_registry() -> Vec<epsh::ops::SliceEntry> {')
